@@ -109,7 +109,9 @@ func (g *Gen) flushDeletes() {
 	defer func() {
 		for i, f := range g.flushing {
 			if f == t {
-				g.flushing = append(g.flushing[:i], g.flushing[i+1:]...)
+				g.flushing[i] = g.flushing[len(g.flushing)-1]
+				g.flushing[len(g.flushing)-1] = nil
+				g.flushing = g.flushing[:len(g.flushing)-1]
 				break
 			}
 		}
@@ -518,22 +520,30 @@ type simMetaInner struct {
 }
 
 func (s *simMetaInner) Load(dir string) (types.PersistentState, error) {
+	raceMeta()
+	defer raceMeta()
 	s.loaded = true
 	return s.st.Load()
 }
 func (s *simMetaInner) CommitState(st types.PersistentState) error {
+	raceMeta()
+	defer raceMeta()
 	if !s.loaded || s.closed {
 		return errors.New("uninitialized")
 	}
 	return s.st.Commit(st)
 }
 func (s *simMetaInner) GetStable(key []byte) ([]byte, error) {
+	raceMeta()
+	defer raceMeta()
 	if !s.loaded || s.closed {
 		return nil, errors.New("uninitialized")
 	}
 	return s.st.Get(key), nil
 }
 func (s *simMetaInner) SetStable(key, value []byte) error {
+	raceMeta()
+	defer raceMeta()
 	if !s.loaded || s.closed {
 		return errors.New("uninitialized")
 	}
@@ -544,6 +554,8 @@ func (s *simMetaInner) SetStable(key, value []byte) error {
 	return nil
 }
 func (s *simMetaInner) Close() error {
+	raceMeta()
+	defer raceMeta()
 	s.closed = true
 	return nil
 }
